@@ -22,11 +22,11 @@ def entriesOf (off : Nat) : List Member → List Entry
 /-- `wfMember` taken apart. -/
 theorem wfMember_parts {m : Member} (h : wfMember m = true) :
     m.name ≠ [] ∧ (m.name ++ (if m.gnuSlash then [47] else [])).length ≤ 16 ∧
-    trimSpace m.name = m.name ∧ m.name.getLast? ≠ some 47 ∧
+    trimSpace m.name = m.name ∧ (m.gnuSlash = true ∨ m.name.getLast? ≠ some 47) ∧
     (fmtNat (m.timestamp.getD 0)).length ≤ 12 ∧ (fmtNat (m.ownerID.getD 0)).length ≤ 6 ∧
     (fmtNat (m.groupID.getD 0)).length ≤ 6 ∧ m.mode.length ≤ 8 ∧ trimSpace m.mode = m.mode ∧
     (fmtNat m.data.length).length ≤ 10 := by
-  simp only [wfMember, Bool.and_eq_true, decide_eq_true_eq, Bool.not_eq_true', bne_iff_ne,
+  simp only [wfMember, Bool.and_eq_true, Bool.or_eq_true, decide_eq_true_eq, Bool.not_eq_true', bne_iff_ne,
     List.isEmpty_eq_false_iff] at h
   obtain ⟨⟨⟨⟨⟨⟨⟨⟨⟨h1, h2⟩, h3⟩, h4⟩, h5⟩, h6⟩, h7⟩, h8⟩, h9⟩, h10⟩ := h
   exact ⟨h1, h2, h3, h4, h5, h6, h7, h8, h9, h10⟩
@@ -62,13 +62,17 @@ theorem name_column {m : Member} (h : wfMember m = true) :
     trimSuffix (trimSpace (padTo 16 (m.name ++ (if m.gnuSlash then [47] else [])))) [47]
       = m.name := by
   obtain ⟨h1, _, h3, h4, _⟩ := wfMember_parts h
-  cases m.gnuSlash with
+  cases hg : m.gnuSlash with
   | true =>
     simp only [if_true]
     rw [trimSpace_padTo 16 (trimSpace_name_slash h1 h3), trimSuffix_slash_append]
   | false =>
     simp only [Bool.false_eq_true, if_false, List.append_nil]
-    rw [trimSpace_padTo 16 h3, trimSuffix_slash_none h4]
+    have h4' : m.name.getLast? ≠ some 47 := by
+      rcases h4 with h4 | h4
+      · rw [hg] at h4; exact absurd h4 (by decide)
+      · exact h4
+    rw [trimSpace_padTo 16 h3, trimSuffix_slash_none h4']
 
 /-! ### the header -/
 
